@@ -292,9 +292,12 @@ inductive Key where
   | fld (n e f : String)
 deriving Repr, DecidableEq
 
-/-- visit order: the keys of `pri` first (in that order), then the rest in canonical order -/
+/-- visit order: the items whose key is listed in `pri` first, in that order, then the rest in canonical
+    order (a key listed twice counts once) -/
 def prio {α : Type} (pri : List Key) (key : α → Key) (l : List α) : List α :=
-  (pri.eraseDups.flatMap fun k => l.filter fun x => key x == k) ++ l.filter fun x => !pri.contains (key x)
+  match pri with
+  | [] => l
+  | k :: ks => (l.filter fun x => key x == k) ++ prio ks key (l.filter fun x => key x != k)
 
 /-- the items visited before the first failing one -/
 def okPrefix {α : Type} (chk : α → Option Err) : List α → List α
@@ -406,10 +409,27 @@ def updateSystem (d : Defects) (pri : List Key) (m : Model) (v : Version) : Mode
   | .error e => (m, some e)
   | .ok nv => updateWith d pri true m nv
 
-/-- a sequence of user versions, each with its own observed visit order -/
-def runVersions (d : Defects) : Model → List (List Key × Version) → Model
+/-- the common form of the two entry points: `update` is `applyV … false`, `update_system` is `applyV … true` -/
+def applyV (d : Defects) (pri : List Key) (system : Bool) (m : Model) (v : Version) : Model × Option Err :=
+  match parse (if system then 0 else 1) v with
+  | .error e => (m, some e)
+  | .ok nv => updateWith d pri system m nv
+
+/-- one step of a history: is it a system update, the observed visit order, the version -/
+abbrev Step := Bool × List Key × Version
+
+/-- a history of versions (user and system), each with its own observed visit order -/
+def runSteps (d : Defects) : Model → List Step → Model
   | m, [] => m
-  | m, (pri, v) :: rest => runVersions d (update d pri m v).1 rest
+  | m, (sys, pri, v) :: rest => runSteps d (applyV d pri sys m v).1 rest
+
+/-- the steps of a history that were accepted -/
+def acceptedSteps (d : Defects) : Model → List Step → List Step
+  | _, [] => []
+  | m, (sys, pri, v) :: rest =>
+    match (applyV d pri sys m v).2 with
+    | none => (sys, pri, v) :: acceptedSteps d (applyV d pri sys m v).1 rest
+    | some _ => acceptedSteps d m rest
 
 /-! ### rows: what a stored row means under a model -/
 
@@ -538,5 +558,28 @@ def Model.entK (m : Model) (n e : String) : Option Nat := (m.findEntity n e).map
 def Model.findField (m : Model) (n e f : String) : Option Field := (m.findEntity n e).bind (·.findField f)
 
 def Model.fieldShort (m : Model) (n e f : String) : Option Nat := (m.findField n e f).map (·.short)
+
+end Discret.DM
+
+namespace Discret.DM
+
+/-- the fields of `new` that `old` does not have -/
+def Entity.fresh (old new : Entity) : List Field :=
+  new.fields.filter fun nf => !old.fields.any (·.name == nf.name)
+
+/-- decidable guard of `C15_partial`: no existing entity receives more than one new field -/
+def atMostOneFresh (m nv : Model) : Bool :=
+  m.nss.all fun n =>
+    match nv.nss.find? (·.name == n.name) with
+    | none => true
+    | some nn => n.ents.all fun e =>
+      match nn.ents.find? (·.name == e.name) with
+      | none => true
+      | some ne => (e.fresh ne).length ≤ 1
+
+def oneFreshGuard (system : Bool) (m : Model) (v : Version) : Bool :=
+  match parse (if system then 0 else 1) v with
+  | .error _ => true
+  | .ok nv => atMostOneFresh m nv
 
 end Discret.DM
